@@ -10,7 +10,8 @@ CONSTANTS Families,        \* which template families to explore
           CtxIds,          \* which named contexts
           NParts, Part,    \* this process explores the descriptors whose rank is Part modulo NParts
           MaxSteps,        \* Terminates: bound on the number of opcode steps of one expansion
-          KnownRepeatOverMapping   \* TRUE iff the recorded finding "tal:repeat over a non-empty mapping" is listed
+          KnownRepeatOverMapping,  \* TRUE iff the recorded finding "tal:repeat over a non-empty mapping" is listed
+          KnownRawTextEscaped      \* TRUE iff the recorded finding "script/style content is entity-escaped" is listed (C18)
 
 VARIABLES desc, case, phase, nsteps
 mcvars == <<st, prog, sym, macros, desc, case, phase, nsteps>>
